@@ -37,21 +37,29 @@ def e1(ctx):
             continue
         st = sqlmod.parse(cull.replace('{fields}', 'rowid').replace('{now}', '0'))
         ok, why = True, ''
-        if st.kind != 'select' or (st.table or '').lower() != 'cache' or len(st.order) != 1 or st.where is not None:
-            ok, why = False, 'cull statement is not `SELECT {fields} FROM Cache ORDER BY <col> LIMIT ?`'
+        documented = name in promised
+        if st.kind != 'select' or (st.table or '').lower() != 'cache' or not st.order or st.where is not None:
+            ok, why = False, 'cull statement is not `SELECT {fields} FROM Cache ORDER BY <col> ... LIMIT ?`'
+        elif documented and len(st.order) != 1:
+            ok, why = False, 'cull statement of a documented policy orders by more than its one promised column'
         else:
             col = sqlmod.colname(st.order[0][0])
-            if st.order[0][1] != 'ASC':
+            if documented and st.order[0][1] != 'ASC':
                 ok, why = False, 'cull order is descending: the newest/most used items would be evicted first'
             elif st.limit is None or st.limit[0] != 'param':
                 ok, why = False, 'cull statement has no LIMIT ? (the per-write budget cannot be applied)'
             elif '{fields}' not in cull:
                 ok, why = False, 'cull statement has no {fields} hole'
-            elif name in promised and col != promised[name]:
+            elif 'RANDOM(' in cull.upper().replace(' ', ''):
+                ok, why = False, 'the cull statement is evaluated twice per cull (file names, then rows): a ' \
+                                 'non-deterministic order picks different rows each time'
+            elif documented and col != promised[name]:
                 ok, why = False, 'policy %s culls by %s, documented order is by %s' % (name, col, promised[name])
             else:
-                if col == 'store_time':
-                    if get is not None:
+                refreshed = col in ('access_time', 'access_count')
+                if not refreshed:
+                    # a policy ordered by a column that reads do not change (store_time, size, ...) rewrites nothing on get
+                    if get is not None and documented:
                         ok, why = False, 'a store-time policy must not rewrite anything on get'
                 else:
                     g = sqlmod.parse('UPDATE Cache SET %s WHERE rowid = ?' % (get or '').replace('{now}', '0'))
@@ -64,8 +72,10 @@ def e1(ctx):
                     elif col == 'access_time' and '{now}' not in get:
                         ok, why = False, 'access_time is not set to {now} on get'
                 ist = sqlmod.parse(init or '')
-                if ok and (ist.kind != 'create_index' or ist.index_cols[:1] != [col]):
+                if ok and documented and (ist.kind != 'create_index' or ist.index_cols[:1] != [col]):
                     ok, why = False, 'the policy index %r does not lead with the cull column %s' % (init, col)
+                if ok and not documented and init is not None and ist.kind != 'create_index':
+                    ok, why = False, 'the init statement of the policy is not a CREATE INDEX'
         obs.append(Ob('E1', name, ok, why, loc))
     return obs
 
